@@ -969,7 +969,8 @@ def row_violations(tabs: dict) -> list[dict]:
     for r in tabs["entry"]:
         (e, flag, fm, keep, aval, prefer, src, out, code, node, exact) = r
         f64ctx = aval in (0, 64) and prefer in (0, 64)
-        if not flag and aval != 64 and prefer != 64 and src != 64 and (out == 64 or dbl(code)):
+        if not flag and aval != 64 and prefer != 64 and (src != 64 or (e == "lit" and aval != 0)) \
+                and (out == 64 or dbl(code)):
             bad.append({"obligation": "entry_single_no_double", "table": "entry", "row": list(r)})
         if e == "is" and not flag and (out == 64 or dbl(code)):
             bad.append({"obligation": "entry_initScalar_immune", "table": "entry", "row": list(r)})
@@ -1062,7 +1063,13 @@ def model_drift(tabs: dict) -> dict:
 
 def gen_cases(rng: common.Rng, thorough: bool) -> list[dict]:
     import c09_programs as P
-    cases = []
+    # corpus first: the minimal inputs of the listed findings (always exercised, any seed)
+    cases = [{"placement": "cond", "kind": "pyint", "op": "minimum", "vi": 1},
+             {"placement": "cond", "kind": "pyint", "op": "maximum", "vi": 1},
+             {"placement": "scan_xs", "kind": "pyint", "op": "where", "vi": 0},
+             {"placement": "fori", "kind": "pyint", "op": "linspace", "vi": 3},
+             {"placement": "top", "kind": "arr64", "op": "arctan2", "vi": 2},
+             {"placement": "top", "kind": "pyfloat", "op": "hamming", "vi": 2}]
     reps = 3 if thorough else 1
     placements = [p for p in P.PLACEMENTS if p != "fn_in_fori"]
     safe_ops = [o for o in P.OPS if o not in ("arctan2", "hamming")]
@@ -1290,7 +1297,7 @@ def public_call(scn: str, flag: bool, glob0: bool, loc: Optional[bool]):
 
 def check_x64(chk: Check, rng: common.Rng, thorough: bool) -> dict:
     # (1) the real context managers against the Lean machine
-    progs = gen_progs(rng, 1500 if thorough else 250)
+    progs = gen_progs(rng, 1500 if thorough else 150)
     lines, real, meta = [], [], []
     for p in progs:
         for glob0 in (False, True):
@@ -1357,7 +1364,7 @@ def check_x64(chk: Check, rng: common.Rng, thorough: bool) -> dict:
 
 
 def check_scanner(chk: Check, rng: common.Rng, thorough: bool) -> dict:
-    cases = list(planted_models(rng, 600 if thorough else 80))
+    cases = list(planted_models(rng, 600 if thorough else 40))
     lines = []
     for desc, m, expect in cases:
         tree = proto_tree(m)
@@ -1376,14 +1383,30 @@ def check_scanner(chk: Check, rng: common.Rng, thorough: bool) -> dict:
 def run(chk: Check) -> None:
     import logging
     logging.disable(logging.CRITICAL)
+    import time
     rng = common.Rng(chk.seed)
     thorough = chk.tier == "thorough"
+    t0 = time.time()
+    phases: dict[str, float] = {}
+
+    def lap(name: str) -> None:
+        nonlocal t0
+        phases[name] = round(time.time() - t0, 1)
+        t0 = time.time()
+
     tabs = generate()
     chk.info("tables", {k: len(v) for k, v in tabs.items()})
+    lap("tabulate")
     proved = chk.prove(MODS, checker=thorough)
+    lap("lean")
 
     # ---- T: rows of the live tables that contradict the property (search for broken obligations)
-    row_bad = row_violations(tabs)
+    row_bad, _seen_rows = [], set()
+    for rb in row_violations(tabs):
+        k = json.dumps([rb["obligation"], rb["row"]])
+        if k not in _seen_rows:
+            _seen_rows.add(k)
+            row_bad.append(rb)
     for rb in row_bad[:40]:
         chk.finding({"kind": "table_row", "obligation": rb["obligation"], "table": rb["table"], "row": rb["row"]},
                     f"real /repo function contradicts {rb['obligation']}: {ROW_CALL[rb['table']]} -> {rb['row']}",
@@ -1397,13 +1420,19 @@ def run(chk: Check) -> None:
     chk.add("traces_validated_against_impl", drift["requests"])
 
     # ---- H: scanner, flag machine, programs
+    lap("rows")
     chk.info("scanner_tie", check_scanner(chk, rng, thorough))
+    lap("scanner")
     x64 = check_x64(chk, rng, thorough)
     chk.info("x64_tie", x64)
+    lap("x64")
     calib = calibrate_ort()
     chk.info("ort_double_kernel_calibration", calib)
     stats = check_programs(chk, rng, thorough, calib)
     chk.info("programs", stats)
+    lap("programs")
+    chk.info("phase_seconds", phases)
+    chk.log(f"phases: {phases}")
     chk.log(f"programs={stats['programs']} exports={stats['exports']} flag_off_scanned={stats['flag_off_scanned']} "
             f"flag_on_probed={stats['flag_on_probed']} max_err_all_f64={stats['max_err_all_f64']:.2e} "
             f"x64_checked={stats['x64_checked']} cm_traces={x64['context_manager_traces']}")
